@@ -37,8 +37,8 @@ type Cell struct {
 	released bool
 	ghost    bool // allocated by harness code: not race-checked
 	// race detection (per location)
-	lastW    *access
-	lastR    map[int]*access
+	lastW *access
+	lastR map[int]*access
 }
 
 type access struct {
@@ -49,7 +49,7 @@ type access struct {
 
 type Ptr struct {
 	c   *Cell
-	idx *Term // element index when c.kind == cBytes and the pointer designates one element
+	idx *Term  // element index when c.kind == cBytes and the pointer designates one element
 	fn  *FuncV // pointer-to-function cell unused
 }
 
@@ -126,12 +126,12 @@ type Poison struct{ why string }
 type ChanV struct{ c *ChanObj }
 
 type ChanObj struct {
-	cap    int
-	buf    []chanItem
-	closed bool
-	id     int
-	et     types.Type
-	site   string
+	cap     int
+	buf     []chanItem
+	closed  bool
+	id      int
+	et      types.Type
+	site    string
 	closeVC []int
 	// rendezvous bookkeeping lives in the scheduler (blocked senders / receivers are threads)
 	sendq []*Thread
